@@ -27,6 +27,21 @@ func ConcatCar(c *cli.Context) (err error) {
 		defer outStream.(*os.File).Close()
 	}
 
+	// A CARv2 header announces the size of the whole payload: measure the inputs first.
+	var dataSize uint64
+	if c.Int("version") == 2 {
+		for i, arg := range c.Args().Slice() {
+			size, headerSize, err := payloadSize(arg)
+			if err != nil {
+				return fmt.Errorf("failed to open %s: %w", arg, err)
+			}
+			if i > 0 {
+				size -= headerSize
+			}
+			dataSize += size
+		}
+	}
+
 	first := true
 	for _, arg := range c.Args().Slice() {
 		inF, err := os.Open(arg)
@@ -56,8 +71,12 @@ func ConcatCar(c *cli.Context) (err error) {
 
 			if first {
 				if c.Int("version") == 2 {
-					cf.Header.IndexOffset = 0
-					if _, err := cf.Header.WriteTo(outStream); err != nil {
+					if _, err := outStream.Write(carv2.Pragma); err != nil {
+						return fmt.Errorf("failed to write pragma: %w", err)
+					}
+					v2Header := carv2.NewHeader(dataSize)
+					v2Header.IndexOffset = 0
+					if _, err := v2Header.WriteTo(outStream); err != nil {
 						return fmt.Errorf("failed to write header: %w", err)
 					}
 				}
@@ -76,4 +95,36 @@ func ConcatCar(c *cli.Context) (err error) {
 	}
 
 	return nil
+}
+
+// payloadSize reports the size of a car's CARv1 payload and of that payload's header.
+func payloadSize(path string) (size, headerSize uint64, err error) {
+	f, err := os.Open(path)
+	if err != nil {
+		return 0, 0, err
+	}
+	defer f.Close()
+	cf, err := carv2.NewReader(f)
+	if err != nil {
+		return 0, 0, err
+	}
+	cv1, err := cf.DataReader()
+	if err != nil {
+		return 0, 0, err
+	}
+	carReader, err := carv1.NewCarReader(cv1)
+	if err != nil {
+		return 0, 0, err
+	}
+	if headerSize, err = carv1.HeaderSize(carReader.Header); err != nil {
+		return 0, 0, err
+	}
+	if cf.Version == 2 {
+		return cf.Header.DataSize, headerSize, nil
+	}
+	fi, err := f.Stat()
+	if err != nil {
+		return 0, 0, err
+	}
+	return uint64(fi.Size()), headerSize, nil
 }
